@@ -8,6 +8,9 @@ import RedisVerif.Driver.C03
 import RedisVerif.Driver.C02
 import RedisVerif.Driver.C11
 import RedisVerif.Driver.C12
+import RedisVerif.Driver.C09
+import RedisVerif.Driver.C10
+import RedisVerif.Driver.C14
 
 open RedisVerif.Driver
 
@@ -17,13 +20,15 @@ partial def loop (h : IO.FS.Stream) (out : IO.FS.Stream) (f : String → String)
   out.putStrLn (f line)
   loop h out f
 
-partial def loopState {σ : Type} (h : IO.FS.Stream) (out : IO.FS.Stream) (f : σ → String → σ × String)
-    (s : σ) : IO Unit := do
+/-- stateful sub-drivers: the state is threaded through the lines -/
+partial def loopState {σ : Type} (h : IO.FS.Stream) (out : IO.FS.Stream)
+    (f : σ → String → σ × String) (s : σ) : IO Unit := do
   let line ← h.getLine
   if line.isEmpty then return ()
   let (s', o) := f s line
   out.putStrLn o
   loopState h out f s'
+
 def main (args : List String) : IO UInt32 := do
   let stdin ← IO.getStdin
   let stdout ← IO.getStdout
@@ -39,4 +44,7 @@ def main (args : List String) : IO UInt32 := do
   | ["C11"] => loopState stdin stdout C11.step C11.init; return 0
   | ["C12"] => loopState stdin stdout C12.step C12.init; return 0
   | ["C13"] => loopState stdin stdout C12.step C12.init; return 0
+  | ["C09"] => loop stdin stdout C09.step; return 0
+  | ["C10"] => loopState stdin stdout C10.step []; return 0
+  | ["C14"] => loopState stdin stdout C14.step {}; return 0
   | _ => IO.eprintln "usage: rvdriver <property-id> < ops"; return 2
